@@ -53,7 +53,29 @@ def run(ctx):
 
 
 # ------------------------------------------------------------------------------------------------ R1
+def no_bulk_contents_writes(ctx, rule):
+    """Besides the per-substance loop nothing in the transfer writes contents wholesale: `x.contents.update(..)`,
+    `x.contents = ..` or `x.contents |= ..` replace the amounts the receiver already holds instead of adding to them."""
+    plain = ctx.model.plain()
+    fi = plain.func('Container._transfer')
+    bad = []
+    for x in ast.walk(fi.node):
+        if isinstance(x, ast.Call) and isinstance(x.func, ast.Attribute) and x.func.attr in ('update', 'clear', 'setdefault', 'pop') and \
+                isinstance(x.func.value, ast.Attribute) and x.func.value.attr == 'contents':
+            bad.append(x)
+        if isinstance(x, (ast.Assign, ast.AugAssign)):
+            for t in (x.targets if isinstance(x, ast.Assign) else [x.target]):
+                if isinstance(t, ast.Attribute) and t.attr == 'contents':
+                    bad.append(x)
+    ctx.ob(rule, ctx.model.func('Container._transfer'), (bad[0].lineno if bad else fi.node.lineno),
+           'the transfer changes contents entry by entry (old amount plus / minus the moved amount), never wholesale', not bad,
+           fact=(f"`{unparse(bad[0], 70)}`" if bad else 'no update() / assignment of a whole contents dictionary'),
+           why='what the destination already held of a substance is overwritten by what arrives (or what the source held is dropped): '
+               'the totals over both sides change', key='wholesale contents write in _transfer')
+
+
 def symmetric_update(ctx):
+    no_bulk_contents_writes(ctx, 'C01.R1')
     fi = ctx.model.func('Container._transfer')
     ff = ctx.flow('Container._transfer')
     cs = contents_stores(ff)
